@@ -8,12 +8,22 @@
  * views after an update (matrix, unitary, copy, invert, fuse, dagger, controlled_by,
    on_qubits) equal those of a freshly built circuit (exact float equality; the per-class
    symbolic obligations are C05's "updated" cases, re-run here for parametrised classes);
- * parameter-shift rule: for RX, RY, RZ traced from the source, every bilinear monomial
-   conj(u_ab(th)) * u_cd(th) has derivative r*(g(th+s) - g(th-s)) with r, s as computed by
-   derivative.py -- proved with Base/TrigDeriv.deriv_check_sound (Coquelicot is_derive);
-   by linearity this gives d/dth <psi|U(th)^dag H U(th)|psi> for every circuit/observable.
+ * parameter-shift rule, general theorem (coq/theories/C06/PropsShift.v, proofs in ShiftRule.v): for every
+   dimension, state, observable H, lists of fixed matrices before/after the gate, every family
+   U(th) = cos(r th) Id - i sin(r th) G, r <> 0 and every scale factor, Re and Im of
+   f(th) = <phi(th)|H|phi(th)> are derivable and d/dx f(scale x) = r (f(scale x + pi/4r) - f(scale x - pi/4r)) scale,
+   the value derivative.py returns.  Tied to /repo on every run: every gate class whose
+   generator_eigenvalue() does not raise (RX, RY, RZ) is traced and `rot_gate_check r M G = true` is
+   proved (M(th) = cos(r th) I - i sin(r th) G, G = traced X/Y/Z, G G = I), from which
+   traced_gate_shift_rule gives the rule for that traced matrix on any qubit of any register; all other
+   parametrised classes are checked to be rejected by parameter_shift (NotImplementedError);
+ * (kept) per-monomial obligations: every bilinear monomial conj(u_ab(th)) * u_cd(th) of RX, RY, RZ has
+   derivative r*(g(th+s) - g(th-s)) -- Base/TrigDeriv.deriv_check_sound;
+ * tolerance tests: the real parameter_shift equals r*(f(th+s)-f(th-s)) and restores the parameters;
+   it equals the analytic derivative 2 Re<psi|H|d psi> * scale_factor for gates in the middle of deeper
+   circuits with scale_factor != 1, random initial states and observables.
 """
-STATIC = ["C06/Props", "Base/TrigDeriv", "Base/TrigMat"]
+STATIC = ["C06/Props", "C06/PropsShift", "Base/TrigDeriv", "Base/TrigMat"]
 import itertools
 import random
 from fractions import Fraction
@@ -463,6 +473,283 @@ def shift_implementation(run, rng, n):
     run.oblige("parameter_shift_computes_shift_formula", bad == 0, "correspondence")
 
 
+# --------------------------------------------------------------------------- the general shift theorem, tied per run
+SHIFT_HEADER = HEADER + "From QV Require Import C06.ShiftRule C06.PropsShift.\n"
+GENERATOR_OF = {"RX": "X", "RY": "Y", "RZ": "Z"}
+
+
+def claimed_classes():
+    """{class: generator_eigenvalue()} for every parametrised class of gates.py whose method does not raise
+    NotImplementedError (the gates parameter_shift accepts), and the list of classes that raise"""
+    claimed, rejected, skipped = {}, [], []
+    for name, nq, ps in qtrace.catalogue():
+        if not ps:
+            continue
+        try:
+            g = qtrace.make_gate(name, list(range(nq)), [0.1 * (j + 1) for j in range(len(ps))])
+        except Exception as e:  # noqa: BLE001
+            skipped.append(f"{name}: {type(e).__name__}")
+            continue
+        try:
+            claimed[name] = (g.generator_eigenvalue(), nq, len(ps))
+        except NotImplementedError:
+            rejected.append(name)
+    return claimed, rejected, skipped
+
+
+def overriding_classes():
+    """every Gate subclass (all of qibo.gates, including the classes the catalogue skips) that overrides
+    generator_eigenvalue -- the abstract method raises NotImplementedError"""
+    import qibo.gates  # noqa: F401
+    from qibo.gates.abstract import Gate
+    seen, todo, out = set(), [Gate], []
+    while todo:
+        k = todo.pop()
+        for sub in k.__subclasses__():
+            if sub not in seen:
+                seen.add(sub)
+                todo.append(sub)
+                if "generator_eigenvalue" in vars(sub):
+                    out.append(sub.__name__)
+    return sorted(out)
+
+
+def shift_general(run, rng):
+    from qibo import Circuit, gates, hamiltonians
+    from qibo.derivative import parameter_shift
+    for t in vcore.props_theorems("C06/PropsShift.v"):
+        run.oblige(t, True, "static-theorem")
+    ok, pa = vcore.static_assumptions("C06/PropsShift")
+    run.notes["print_assumptions_shift"] = pa
+    claimed, rejected, skipped = claimed_classes()
+    run.notes["parameter_shift_accepts"] = sorted(claimed)
+    run.notes["parameter_shift_rejects"] = sorted(rejected)
+    if skipped:
+        run.notes["parameter_shift_unclassified"] = skipped
+    over = overriding_classes()
+    extra = [n for n in over if n not in claimed]
+    run.oblige("generator_eigenvalue_defined_only_by_checked_classes", not extra, "correspondence")
+    if extra:
+        run.find("unproved:generator_eigenvalue:" + "+".join(extra), "classes outside the traced catalogue define generator_eigenvalue "
+                 f"(accepted by parameter_shift) but are not covered by the shift theorem: {extra}", concrete=False)
+    defs, items, meta = [], [], {}
+    with qtrace.patched():
+        qtrace.fresh_sym_backend()
+        for name in sorted(claimed):
+            val, nq, npar = claimed[name]
+            run.case(["rot_form", name, repr(val)])
+            r = Fraction(val).limit_denominator(64)
+            if nq != 1 or npar != 1 or r == 0 or abs(float(r) - float(val)) > 1e-15:
+                # outside the family the theorem covers: look for a wrong derivative, otherwise report as unproved
+                w = shift_numeric(name, rng) if nq == 1 and npar == 1 else None
+                if w:
+                    run.refuted.append(f"rot_form_{name}")
+                    run.find(f"parameter_shift:{name}", "parameter_shift differs from the true derivative", w)
+                else:
+                    run.oblige(f"rot_form_{name}", False, "parameter-shift")
+                    run.find(f"unproved:rot_form_{name}", f"{name} claims generator eigenvalue {val} but is not a one-qubit "
+                             "one-parameter gate with rational eigenvalue: not covered by the shift theorem", concrete=False)
+                continue
+            try:
+                (th,) = qtrace.setup_vars(1)
+                M = qtrace.gate_symmat(qtrace.make_gate(name, [0], [th]))
+                if name in GENERATOR_OF:
+                    G = qtrace.gate_symmat(qtrace.make_gate(GENERATOR_OF[name], [0], []))
+                    gtxt = G.coq()
+                    gsrc = f"traced gates.{GENERATOR_OF[name]}"
+                else:   # U(pi/(2r)) = -i G
+                    Mh = qtrace.gate_symmat(qtrace.make_gate(name, [0], [PI * (Fraction(1, 2) / r)]))
+                    gtxt = "[" + "; ".join("[" + "; ".join(f"(EMul EI {st.lift(e).tree().coq})" for e in row) + "]" for row in Mh.rows) + "]"
+                    gsrc = "i * U(pi/(2r))"
+            except Exception as e:  # noqa: BLE001  (TraceError: fail closed)
+                run.oblige(f"rot_form_{name}", False, "parameter-shift")
+                run.find(f"unproved:rot_form_{name}", f"tracing {name} failed: {type(e).__name__}: {e}", concrete=False)
+                continue
+            defs.append(f"Definition M_{name} : mat expr := {M.coq()}.\nDefinition G_{name} : mat expr := {gtxt}.\n")
+            items.append((f"rot_form_{name}", f"rot_gate_check {st.qlit(r)} M_{name} G_{name}"))
+            meta[name] = (r, gsrc)
+            run.sample({"obligation": f"rot_form_{name}", "generator_eigenvalue": str(r), "generator": gsrc,
+                        "statement": f"{name}(th) = cos(r th) I - i sin(r th) G, G G = I, hence traced_gate_shift_rule"})
+    header = SHIFT_HEADER + "".join(defs)
+
+    def theorem_list(good):
+        thms = []
+        for n, t in good:
+            name = n[len("rot_form_"):]
+            r = meta[name][0]
+            thms.append((f"ok_{n}", f"{t} = true", "vm_compute; reflexivity."))
+            thms.append((f"psr_{name}",
+                         "forall (n : nat) (qs : list nat) (before after : list Cmat) (H : Cmat) (psi : Cvec) (scale x : R), "
+                         f"let U := fun th : R => embed Cops n qs (mden (fun _ => th) (MLit M_{name})) in "
+                         "let f := fun th : R => expect H (circuit_state before (U th) after psi) in "
+                         f"is_derive (fun y => Re (f (scale * y)%R)) x (psr_value (fun t => Re (f t)) (Q2R {st.qlit(r)}) scale (scale * x)%R) /\\ "
+                         f"is_derive (fun y => Im (f (scale * y)%R)) x (psr_value (fun t => Im (f t)) (Q2R {st.qlit(r)}) scale (scale * x)%R)",
+                         f"exact (traced_gate_shift_rule {st.qlit(r)} M_{name} G_{name} ok_{n})."))
+        return thms
+    res = {n: True for n, _ in items}
+    if items:
+        ok, out = run.coq_theorems("C06_rot_theorems.v", header, theorem_list(items), timeout=600)
+        if not ok:
+            run.notes.get("coq_errors", []) and run.notes["coq_errors"].pop()
+            res, out = run.coq_bools("C06_rot_triage.v", header, items, timeout=600)
+            if res is None:
+                run.find("coq:C06_rot", "rotation-form obligations do not compile", {"log": out[-1500:]}, concrete=False)
+                res = {}
+                items = []
+            good = [(n, t) for n, t in items if res[n]]
+            ok = True
+            if good:
+                ok, out2 = run.coq_theorems("C06_rot_theorems.v", header, theorem_list(good), timeout=600)
+                if not ok:
+                    run.find("coq:C06_rot_theorems", "theorem file does not compile", {"log": out2[-1500:]}, concrete=False)
+        for n, _ in items:
+            name = n[len("rot_form_"):]
+            if res.get(n):
+                run.oblige(n, ok, "parameter-shift")
+                run.oblige(f"psr_{name}", ok, "parameter-shift")
+            else:
+                w = shift_numeric(name, rng)
+                if w:
+                    run.refuted.append(n)
+                    run.find(f"parameter_shift:{name}", "parameter_shift differs from the true derivative", w)
+                else:
+                    run.oblige(n, False, "parameter-shift")
+                    run.find(f"unproved:{n}", f"{name}(th) is not cos(r th) I - i sin(r th) G with G G = I for r = generator_eigenvalue()",
+                             concrete=False)
+    # every other parametrised class is rejected by the real parameter_shift (not claimed by the theorem either)
+    bad = 0
+    H1 = {1: hamiltonians.Hamiltonian(1, np.diag([1.0, -1.0])),
+          2: hamiltonians.Hamiltonian(2, np.diag([1.0, -1.0, 0.5, 2.0])),
+          3: hamiltonians.Hamiltonian(3, np.diag([1.0, -1.0, 0.5, 2.0, 0.0, 1.5, -2.0, 3.0]))}
+    cat = {name: (nq, len(ps)) for name, nq, ps in qtrace.catalogue()}
+    for name in sorted(rejected):
+        nq, npar = cat[name]
+        vals = [round(rng.uniform(0.2, 0.7), 3) for _ in range(npar)]
+        c = Circuit(nq)
+        for q in range(nq):
+            c.add(gates.H(q))
+        c.add(getattr(gates, name)(*range(nq), *vals))
+        run.case(["psr_rejects", name])
+        try:
+            got = parameter_shift(c, H1[nq], 0)
+        except NotImplementedError:
+            continue
+        except Exception as e:  # noqa: BLE001
+            run.notes.setdefault("parameter_shift_other_errors", []).append(f"{name}: {type(e).__name__}")
+            continue
+        bad += 1
+        run.find(f"parameter_shift:unclaimed:{name}", f"parameter_shift returns {got} for a {name} gate although its "
+                 "generator_eigenvalue() raises NotImplementedError: value not covered by the shift theorem",
+                 {"gate": name, "values": vals, "got": got}, concrete=False)
+    run.oblige("parameter_shift_rejects_every_unclaimed_class", bad == 0, "correspondence")
+
+
+def shift_outside_family(run, rng):
+    """RX/RY/RZ objects that are NOT the embedded one-qubit family although generator_eigenvalue() answers:
+    controlled_by with two or more controls keeps the class (one control specialises to CRX/CRY/CRZ, which raise).
+    Witness of C06/PropsShift.controlled_rotation_shift_rule_refuted (normalised): psi = (|000>+|011>)/sqrt2,
+    H = Z (x) (|00><11| + |11><00|), th = pi: f = cos(th/2), f' = -1/2, two-term rule gives -1/sqrt2."""
+    from qibo import Circuit, gates, hamiltonians
+    from qibo.derivative import parameter_shift
+    Hm = np.zeros((8, 8), dtype=complex)
+    Hm[0, 3] = Hm[3, 0] = 1.0
+    Hm[4, 7] = Hm[7, 4] = -1.0
+    psi = np.zeros(8, dtype=complex)
+    psi[0] = psi[3] = 1 / np.sqrt(2)
+    for name in ("RX", "RY", "RZ"):
+        th = float(np.pi) if name != "RZ" else 1.3
+
+        def mk(t):
+            c = Circuit(3)
+            if name == "RZ":
+                c.add(gates.H(0))
+            c.add(getattr(gates, name)(0, t).controlled_by(1, 2))
+            if name == "RZ":
+                c.add(gates.H(0))
+            return c
+        c = mk(th)
+        run.case(["psr_multi_controlled", name])
+        H = hamiltonians.Hamiltonian(3, Hm)
+        try:
+            got = parameter_shift(c, H, 0, initial_state=psi.copy())
+        except NotImplementedError:
+            continue            # rejected: nothing claimed, nothing wrong
+        f = lambda t: float(np.real(H.expectation(mk(t)(initial_state=psi.copy()).state())))
+        h = 1e-3
+        want = (-f(th + 2 * h) + 8 * f(th + h) - 8 * f(th - h) + f(th - 2 * h)) / (12 * h)
+        if abs(got - want) > 1e-6:
+            run.refuted.append(f"psr_multi_controlled_{name}")
+            run.find(f"parameter_shift:multi_controlled:{name}",
+                     f"gates.{name}(0, th).controlled_by(1, 2) keeps class {type(c.queue[-1 if name != 'RZ' else 1]).__name__} and "
+                     f"generator_eigenvalue() = 0.5, so parameter_shift applies the two-term rule to a controlled rotation "
+                     f"(generator eigenvalues 0, +-1/2): returns {got}, true derivative {want}",
+                     {"circuit": f"{name}(0, {th}).controlled_by(1, 2) on 3 qubits" + (" between H(0)" if name == "RZ" else ""),
+                      "hamiltonian": "Z(0) (x) (|00><11| + |11><00|) on qubits 1,2", "initial_state": "(|000> + |011>)/sqrt(2)",
+                      "theta": th, "parameter_shift": got, "true_derivative": want})
+
+
+def shift_true_derivative(run, rng, n):
+    """tolerance test: the real parameter_shift (with scale_factor) against the analytic derivative.
+    For U(th) = exp(-i th G / 2):  d phi = (-i/2) (after) G U(th) (before) psi, f' = 2 Re <phi|H|d phi> (H Hermitian),
+    d/dx f(scale x) = scale f'.  d phi is computed by the real backend on the circuit with the Pauli gate G
+    inserted after the target gate, so the reference does not use the shift formula."""
+    from qibo import Circuit, gates, hamiltonians
+    from qibo.derivative import parameter_shift
+    fixed = [lambda q: gates.H(q[0]), lambda q: gates.S(q[0]), lambda q: gates.T(q[0]), lambda q: gates.CNOT(q[0], q[1]),
+             lambda q: gates.CZ(q[0], q[1]), lambda q: gates.SWAP(q[0], q[1]), lambda q: gates.TOFFOLI(q[0], q[1], q[2]),
+             lambda q: gates.SX(q[0]), lambda q: gates.iSWAP(q[0], q[1])]
+    bad = 0
+    for i in range(n):
+        nq = rng.randint(3, 4)
+        spec = []        # ("fix", maker index, qubits) | ("rot", name, qubit, value)
+        depth = rng.randint(8, 16)
+        for _ in range(depth):
+            if rng.random() < 0.45:
+                spec.append(("rot", rng.choice(["RX", "RY", "RZ"]), rng.randrange(nq), round(rng.uniform(-3.0, 3.0), 3)))
+            else:
+                spec.append(("fix", rng.randrange(len(fixed)), rng.sample(range(nq), 3)))
+        rots = [k for k, sp in enumerate(spec) if sp[0] == "rot"]
+        if len(rots) < 3:
+            continue
+        target = rots[rng.randrange(1, len(rots) - 1)] if rng.random() < 0.8 else rng.choice(rots)   # mostly a gate in the middle
+        idx = rots.index(target)
+        scale = rng.choice([-2.5, -1.0, 0.3, 0.5, 2.0, 3.75, 1.0])
+
+        def build(insert_generator=False):
+            c = Circuit(nq)
+            for k, sp in enumerate(spec):
+                if sp[0] == "rot":
+                    c.add(getattr(gates, sp[1])(sp[2], sp[3]))
+                    if insert_generator and k == target:
+                        c.add(getattr(gates, GENERATOR_OF[sp[1]])(sp[2]))
+                else:
+                    c.add(fixed[sp[1]](sp[2]))
+            return c
+        d = 2 ** nq
+        A = np.array([[rng.uniform(-1, 1) + 1j * rng.uniform(-1, 1) for _ in range(d)] for _ in range(d)])
+        Hm = (A + A.conj().T) / 2
+        H = hamiltonians.Hamiltonian(nq, Hm)
+        psi0 = None
+        if i % 3:
+            v = np.array([rng.uniform(-1, 1) + 1j * rng.uniform(-1, 1) for _ in range(d)], dtype=complex)
+            psi0 = v / np.linalg.norm(v)
+        c = build()
+        before = [float(p[0]) for p in c.get_parameters()]
+        got = parameter_shift(c, H, idx, initial_state=psi0, scale_factor=scale)
+        after = [float(p[0]) for p in c.get_parameters()]
+        phi = np.asarray(build()(initial_state=None if psi0 is None else psi0.copy()).state())
+        dphi = -0.5j * np.asarray(build(True)(initial_state=None if psi0 is None else psi0.copy()).state())
+        want = float(2 * np.real(np.conj(phi) @ Hm @ dphi)) * scale
+        run.case(["psr_true", [sp[1] if sp[0] == "rot" else "f%d" % sp[1] for sp in spec], idx, scale, psi0 is not None])
+        if abs(got - want) > 1e-9 or before != after:
+            bad += 1
+            run.find(f"parameter_shift_true:{spec[target][1]}", "parameter_shift (scale_factor, deep circuit) differs from the analytic "
+                     "derivative or does not restore the parameters",
+                     {"nqubits": nq, "spec": spec, "target": target, "index": idx, "scale_factor": scale, "got": got, "want": want,
+                      "params_before": before, "params_after": after, "initial_state": None if psi0 is None else [str(z) for z in psi0]})
+    run.oblige("parameter_shift_equals_analytic_derivative_test", bad == 0, "test")
+
+
 def probes(run, rng):
     """formats x matrix-valued two-part parameters, and parameter_shift's index conventions"""
     from qibo import Circuit, gates, hamiltonians
@@ -523,14 +810,17 @@ def probes(run, rng):
 
 RULE = ("bookkeeping: random circuits of 12 gate kinds (1/2/3/matrix parameters, trainable and fixed interleaved) x 4 input formats, "
         "integer values, compared exactly with the Coq model; views: 8 derived views after an update vs a freshly built circuit; "
-        "parameter shift: 16 bilinear monomials x {RX,RY,RZ} as Coq derivative obligations; distinct = distinct (format, gate list, values)")
+        "parameter shift: general theorem (static) + per claimed class the traced matrix is proved to be cos(r th) I - i sin(r th) G; "
+        "16 bilinear monomials x {RX,RY,RZ} as Coq derivative obligations; real parameter_shift vs shift formula and vs analytic derivative "
+        "(deep circuits, scale_factor, random states/observables; tolerance tests); distinct = distinct (format, gate list, values)")
 
 
 def main(run):
     rng = random.Random(run.seed)
     run.trusted += ["Coq 8.16.1 kernel, vm_compute", "C06/Params.v model of set/get_parameters (hand-written, tied by exact correspondence)",
                     "Base/TrigDeriv.v (is_derive of TrigNF polynomials; Coquelicot)", "lib/symtrace.py tracer"]
-    run.assumptions += ["exact real arithmetic; linearity of the derivative lifts the per-monomial shift rule to expectation values"]
+    run.assumptions += ["exact real arithmetic (Coq/Coquelicot reals) for the shift rule"]
+    run.trusted += ["C06/ShiftRule.v definitions (rot, circuit_state, expect, psr_value) read against derivative.py; Base/TrigMat.v (mcheck_eq_sound)"]
     for t in vcore.props_theorems("C06/Props.v"):
         run.oblige(t, True, "static-theorem")
     ok, pa = vcore.static_assumptions("C06/Props")
@@ -540,10 +830,22 @@ def main(run):
     views(run, rng, 120 if q else 1500)
     independence(run, random.Random(run.seed + 77), 80 if q else 800)
     shift_obligations(run, rng)
+    shift_general(run, random.Random(run.seed + 5))
     shift_implementation(run, rng, 25 if q else 300)
+    shift_true_derivative(run, random.Random(run.seed + 6), 40 if q else 600)
+    shift_outside_family(run, rng)
     probes(run, rng)
-    run.not_proved += ["finite_differences (an approximation by definition) and the shot-based branch of parameter_shift are not modelled",
-                       "linearity step from monomials to <psi|U^dag H U|psi> is stated in prose (standard), not as a Coq theorem"]
+    run.not_proved += ["finite_differences (an approximation by definition) and the shot-based branch (nshots) of parameter_shift are not modelled",
+                       "the shift rule is proved in exact real arithmetic for the mathematical function f (C06/PropsShift.v: all dimensions, states, "
+                       "observables, circuits, scale factors); that the real parameter_shift evaluates r*(f(th+s)-f(th-s))*scale_factor with these "
+                       "f, r, s is a tolerance test (float execution), and that circuit execution is the matrix-vector product used in the theorem "
+                       "is C01's statement",
+                       "parameter_shift accepts only RX, RY, RZ (generator_eigenvalue raises NotImplementedError for every other class, checked "
+                       "per run); nothing is claimed for other gates; RX/RY/RZ objects made with controlled_by(two or more controls) keep the "
+                       "class but are controlled operators (cembed, not embed): the rule is refuted for them "
+                       "(controlled_rotation_shift_rule_refuted; finding parameter_shift:multi_controlled:*)",
+                       "density-matrix circuits / noise channels: the theorem is stated for state vectors (pure states); mixed states follow by "
+                       "linearity of the derivative in the ensemble, which is not formalised"]
     return run.finish(rule=RULE)
 
 
